@@ -67,7 +67,7 @@ func NewC05(tier string) *C05 {
 		{"usdt", "minter", "12", 24, 100},
 	}
 	c.Items = []string{"empty", "send1", "send2", "send65", "send70", "sendM70", "reqbatch", "cancel1",
-		"dep_ok", "dep_negfee", "dep_huge", "dep_huge_dec6", "dep_huge_dec24", "dep_zero", "dep_unknown_token", "dep_unknown_chain", "dep_to_hub_short_recv", "dep_negfee_hub",
+		"dep_ok", "dep_disputed", "dep_negfee", "dep_huge", "dep_huge_dec6", "dep_huge_dec24", "dep_zero", "dep_unknown_token", "dep_unknown_chain", "dep_to_hub_short_recv", "dep_negfee_hub",
 		"exec_first", "exec_first_hugefee", "exec_unknown", "valset_event", "logic_event", "prices", "prices_partial", "holders", "observe_far", "prices_extra_name_by_powerless", "holders_by_powerless"}
 	c.Pairs = [][2]string{{"send2", "send70"}, {"send1", "send65"}, {"dep_ok", "send70"}, {"observe_far", "send2"}, {"prices", "exec_first"}, {"reqbatch", "send70"}, {"send70", "reqbatch"}}
 	if tier == "thorough" {
@@ -324,6 +324,17 @@ func (c *C05) item(in *hub.Instance, ns *c05State, it string, st *engine.Step) {
 			return &mhubtypes.TransferToChainEvent{EventNonce: n, ExternalCoinId: EthHub, Amount: sdk.NewInt(100000), Fee: sdk.NewInt(10), Sender: sender,
 				ReceiverChainId: "minter", ExternalReceiver: hub.HexAddr("x"), ExternalHeight: 1000 + n, TxHash: fmt.Sprintf("0xd%d", n)}
 		}, st)
+	case "dep_disputed":
+		// the validators disagree about the next event: three different claims at one nonce, none reaches 66 %
+		// (a later unanimous claim then reaches quorum at the following nonce while this one is undecided)
+		ns.Ev["ethereum"]++
+		n := ns.Ev["ethereum"]
+		for i, v := range c.Vals {
+			ev := &mhubtypes.TransferToChainEvent{EventNonce: n, ExternalCoinId: EthHub, Amount: sdk.NewInt(int64(1000 + i)), Fee: sdk.NewInt(10), Sender: sender,
+				ReceiverChainId: "minter", ExternalReceiver: hub.HexAddr("x"), ExternalHeight: 1000 + n, TxHash: fmt.Sprintf("0xq%d", n)}
+			c.txOutcome(in.DeliverMsg(hub.EventMsg(v.Orch, "ethereum", ev)), st)
+		}
+		st.Count("claims_voted", 1)
 	case "dep_negfee":
 		// what every honest connector emits for a Minter deposit whose payload says fee "-5"
 		// (command.ValidateAndComplete accepts it): cosmos.CreateClaims copies cmd.Fee into Fee
